@@ -88,7 +88,13 @@ def parsePkts (s : String) : Option (List P) :=
 def showPkts (ps : List (BitVec 32 × BitVec 32 × Bytes)) : String :=
   if ps.isEmpty then "-" else ",".intercalate (ps.map fun (i, t, p) => s!"{h8 i}:{h8 t}:{hexOfBytes p}")
 
-/-- rcon.concat kind pkts trail => stream= n= pkts= rest= -/
+/-- a payload string the library returned earlier no longer holds what it held when it was returned -/
+def changedWhy (obs : String) : Option String :=
+  match (obs.splitOn " ").find? (·.startsWith "changed-was:") with
+  | some t => some s!"a payload returned earlier changed when a later frame was read on the same connection ({t.take 80})"
+  | none => none
+
+/-- rcon.concat kind pkts trail => stream= n= pkts= rest= [changed-was:p<i>=<hex> …] -/
 def concat (a : List String) (obs : String) : Verdict :=
   match a with
   | [kind, pss, ts] =>
@@ -103,6 +109,7 @@ def concat (a : List String) (obs : String) : Verdict :=
         | .panic => "panic"
       let spec : Option String :=
         if obs == "panic" || obs == "hang" then some ("concat " ++ obs)
+        else if (changedWhy obs).isSome then changedWhy obs
         else if ps.all (fun p => validSize p.p) then
           -- written stream = the frames of the protocol description; the reference reader splits it the same way
           let want := ps.foldl (fun acc p => acc ++ specFrame p.id p.typ p.p) [] ++ trail
@@ -254,6 +261,7 @@ def sess (a : List String) (obs : String) : Verdict :=
       let toks := obs.splitOn " "
       let spec : Option String :=
         if obs == "hang" then some "session hangs"
+        else if (changedWhy obs).isSome then changedWhy obs
         else match kv toks "c", kv toks "s" with
           | some cl, some sl =>
             let cl := cl.splitOn ","
@@ -377,6 +385,53 @@ def dial (a : List String) (obs : String) : Verdict :=
     | none => { model := "bad-arg" }
   | _ => { model := "bad-arg" }
 
+/-! ### rcon.hist — a history of reading methods on one connection -/
+
+/-- rcon.hist kind req calls pkts => log=<per call> req= rest= [changed-was:h<i>=<hex> …] -/
+def hist (a : List String) (obs : String) : Verdict :=
+  match a with
+  | [kind, rs, calls, pss] =>
+    match p8 rs, parsePkts pss with
+    | some req, some ps =>
+      let calls := if calls == "-" then [] else calls.toList
+      let st := ps.foldl (fun acc p => acc ++ GoMC.Model.RCON.packetBytes p.id p.typ p.p) []
+      let c0 : Conn := { inp := stream st kind, reqID := req }
+      let (log, c) := calls.foldl (fun (acc : List String × Conn) call =>
+        let (log, c) := acc
+        if call == 'p' then
+          let (r, c') := GoMC.Model.RCON.readPacket c
+          (log ++ [match r with | .ok q => s!"p+{h8 q.id}:{h8 q.typ}:{hexOfBytes q.payload}" | .err => "p-" | .panic => "!"], c')
+        else if call == 'a' then
+          let (r, c') := GoMC.Model.RCON.acceptCmd c
+          (log ++ [tagB "a" r], c')
+        else
+          let (r, c') := GoMC.Model.RCON.resp c
+          (log ++ [tagB "r" r], c')) ([], c0)
+      let model := s!"log={",".intercalate log} req={h8 c.reqID} rest={hexOfBytes c.inp.flat}"
+      -- the property, from the protocol description: call i meets frame i, whatever is read before or after
+      let spec : Option String :=
+        if obs == "panic" || obs == "hang" then some ("hist " ++ obs)
+        else if (changedWhy obs).isSome then changedWhy obs
+        else if !ps.all (fun p => validSize p.p) then none
+        else
+          let rec go (calls : List Char) (ps : List P) (cur : BitVec 32) (acc : List String) : List String × BitVec 32 :=
+            match calls, ps with
+            | call :: calls', q :: ps' =>
+              if call == 'p' then go calls' ps' cur (acc ++ [s!"p+{h8 q.id}:{h8 q.typ}:{hexOfBytes q.p}"])
+              else if call == 'a' then go calls' ps' q.id (acc ++ [if q.typ == 2#32 then "a+" ++ hexOfBytes q.p else "a-"])
+              else go calls' ps' cur (acc ++ [if q.id == cur && q.typ == 0#32 then "r+" ++ hexOfBytes q.p else "r-"])
+            | call :: calls', [] => go calls' [] cur (acc ++ [String.singleton call ++ "-"])
+            | [], _ => (acc, cur)
+          let (want, cur) := go calls ps req []
+          let toks := obs.splitOn " "
+          let wantLog := ",".intercalate want
+          if kv toks "log" != some wantLog then some s!"call i does not return frame i: expected log={wantLog.take 160}"
+          else if kv toks "req" != some (h8 cur) then some s!"request id in use: expected {h8 cur}"
+          else none
+      { model, spec }
+    | _, _ => { model := "bad-arg" }
+  | _ => { model := "bad-arg" }
+
 def handle (opn : String) (args : List String) (obs : String) : Option Verdict :=
   match opn with
   | "rcon.write" => some (write args obs)
@@ -386,6 +441,7 @@ def handle (opn : String) (args : List String) (obs : String) : Option Verdict :
   | "rcon.sess" => some (sess args obs)
   | "rcon.tcp" => some (tcp args obs)
   | "rcon.dial" => some (dial args obs)
+  | "rcon.hist" => some (hist args obs)
   | _ => none
 
 end Driver.C16
